@@ -2,6 +2,7 @@ package main
 
 import (
 	"fmt"
+	"os"
 	"go/ast"
 	"go/types"
 	"sort"
@@ -147,7 +148,7 @@ func (fr *Frame) call(b *ssa.BasicBlock, idx int, ins ssa.Instruction, cc *ssa.C
 				if ms.all {
 					union.all = true
 				}
-				for k, v := range ms.comps {
+				for k, v := range ms.flat() {
 					union.comps[k] = v
 				}
 			}
@@ -205,7 +206,7 @@ func (fr *Frame) call(b *ssa.BasicBlock, idx int, ins ssa.Instruction, cc *ssa.C
 	if strings.HasPrefix(key, modPath) && callee.Blocks != nil {
 		ms := getModAnalysis(u.P, u.C).modSetOf(callee)
 		u.note("call to %s (no contract): result unconstrained, frame inferred from its static call graph", shortKey(key))
-		fr.havocModSet(ms, st, key)
+		fr.havocModSet(ms, st, key, args...)
 		fr.havocEscapedPlaces(cc, st)
 		setRes(fr.freshResult(rt, res))
 		return
@@ -448,7 +449,7 @@ func (fr *Frame) applyContract(b *ssa.BasicBlock, idx int, ins ssa.Instruction, 
 	case (c.ModAuto || !c.HasMod) && callee != nil && callee.Blocks != nil && inModule(callee):
 		ms := getModAnalysis(u.P, u.C).modSetOf(callee)
 		u.note("frame of %s inferred from its static call graph (class-hierarchy analysis for interface calls; external code writes only what it is handed)", c.Key)
-		fr.havocModSet(ms, st, c.Key)
+		fr.havocModSet(ms, st, c.Key, args...)
 		fr.havocEscapedPlaces(ins.(ssa.CallInstruction).Common(), st)
 	case c.ModAll || !c.HasMod || c.ModAuto:
 		if !c.HasMod {
@@ -480,7 +481,7 @@ func (fr *Frame) applyContract(b *ssa.BasicBlock, idx int, ins ssa.Instruction, 
 	}
 	envPost := fr.contractEnv(c, callee, args, results, st, pre)
 	envPost.atCallSite = true
-	for _, en := range c.Ensures {
+	for _, en := range append(append([]*Clause{}, c.Ensures...), c.Assumes...) {
 		skip := false
 		envPost.skip = &skip
 		f := envPost.eval(en.Expr).S
@@ -488,6 +489,9 @@ func (fr *Frame) applyContract(b *ssa.BasicBlock, idx int, ins ssa.Instruction, 
 			continue // the clause talks about the callee's internal calls: nothing is assumed from it here
 		}
 		u.assert(implies(reach, f))
+	}
+	for _, a := range c.Assumes {
+		u.note("assumed (not proved) about %s: %s", shortKey(c.Key), a.Text)
 	}
 }
 
@@ -1106,6 +1110,20 @@ func (fr *Frame) resolveLocalAt(name string, at *ssa.BasicBlock, atIdx int, st *
 			}
 		}
 	}
+	// captured-by-reference variables of a closure: the free variable is the address of the variable
+	for i := range fr.names[name] {
+		nb := &fr.names[name][i]
+		if fv, ok := nb.val.(*ssa.FreeVar); ok && nb.isAddr {
+			return fr.load(st, fr.placeOf(fr.val(fv)))
+		}
+	}
+	for _, fv := range fr.fn.FreeVars {
+		if fv.Name() == name {
+			if _, isPtr := fv.Type().Underlying().(*types.Pointer); !isPtr {
+				return fr.val(fv)
+			}
+		}
+	}
 	// Reaching definition: among all values ever bound to the name (debug references and phis carrying
 	// the variable's name), the one whose definition most closely dominates the start of block at.
 	type cand struct {
@@ -1176,15 +1194,26 @@ func (fr *Frame) resolveLocalAt(name string, at *ssa.BasicBlock, atIdx int, st *
 // for res(<callee>, <n>).
 func (fr *Frame) callSiteSpecs(b *ssa.BasicBlock, idx int, ins ssa.Instruction, cc *ssa.CallCommon, res ssa.Value, st *State, reach string) {
 	name := ""
-	if cc.IsInvoke() {
+	if cc == nil {
+		// pseudo sites: "select", "send", "return"
+		switch ins.(type) {
+		case *ssa.Select:
+			name = "select"
+		case *ssa.Send:
+			name = "send"
+		case *ssa.Return:
+			name = "return"
+		default:
+			return
+		}
+	} else if cc.IsInvoke() {
 		name = cc.Method.Name()
 	} else if c := cc.StaticCallee(); c != nil {
 		name = c.Name()
 	} else {
 		return
 	}
-	n := fr.callCount["site:"+name] + 1
-	fr.callCount["site:"+name] = n
+	n := fr.siteOrdinal(name, ins)
 	if fr.callResults == nil {
 		fr.callResults = map[string]ssa.Value{}
 	}
@@ -1196,14 +1225,20 @@ func (fr *Frame) callSiteSpecs(b *ssa.BasicBlock, idx int, ins ssa.Instruction, 
 		return
 	}
 	u := fr.u
+	if os.Getenv("VERIF_SITES") != "" {
+		pos := u.P.Fset.Position(ins.Pos())
+		fmt.Fprintf(os.Stderr, "site %s %d at %s:%d\n", name, n, shortFile(pos.Filename), pos.Line)
+	}
 	for _, cs := range top.Calls {
 		if cs.Callee != name || cs.Ordinal != n {
 			continue
 		}
 		cs.Hit = true
 		env := fr.localEnv(b, idx, st)
-		for _, a := range cc.Args {
-			env.callArgs = append(env.callArgs, fr.val(a))
+		if cc != nil {
+			for _, a := range cc.Args {
+				env.callArgs = append(env.callArgs, fr.val(a))
+			}
 		}
 		for k, cl := range cs.Before {
 			f := env.eval(cl.Expr).S
@@ -1228,4 +1263,50 @@ func (fr *Frame) localEnv(b *ssa.BasicBlock, idx int, st *State) *SpecEnv {
 	env := &SpecEnv{fr: fr, vars: vars, cur: st, old: fr.entrySt, pkg: pkg, errs: &u.problems}
 	env.resolve = func(name string) *Val { return fr.resolveLocalAt(name, b, idx, st) }
 	return env
+}
+
+// siteName is the name under which a call / select / send / return instruction can be addressed by "at".
+func siteName(ins ssa.Instruction) string {
+	switch x := ins.(type) {
+	case *ssa.Select:
+		return "select"
+	case *ssa.Send:
+		return "send"
+	case *ssa.Return:
+		return "return"
+	case ssa.CallInstruction:
+		cc := x.Common()
+		if _, ok := cc.Value.(*ssa.Builtin); ok {
+			return ""
+		}
+		if cc.IsInvoke() {
+			return cc.Method.Name()
+		}
+		if c := cc.StaticCallee(); c != nil {
+			return c.Name()
+		}
+	}
+	return ""
+}
+
+// siteOrdinal numbers the sites of one name in source order (1-based), independent of block layout.
+func (fr *Frame) siteOrdinal(name string, ins ssa.Instruction) int {
+	if fr.siteOrd == nil {
+		fr.siteOrd = map[ssa.Instruction]int{}
+		byName := map[string][]ssa.Instruction{}
+		for _, b := range fr.fn.Blocks {
+			for _, in := range b.Instrs {
+				if n := siteName(in); n != "" && in.Pos().IsValid() {
+					byName[n] = append(byName[n], in)
+				}
+			}
+		}
+		for _, list := range byName {
+			sort.SliceStable(list, func(i, j int) bool { return list[i].Pos() < list[j].Pos() })
+			for i, in := range list {
+				fr.siteOrd[in] = i + 1
+			}
+		}
+	}
+	return fr.siteOrd[ins]
 }
